@@ -137,6 +137,15 @@ class TriggerHandler:
         :param arg: the args
         :return: None to ignore other calls, or our self to continue
         """
+        try:
+            return self.__trace_call(frame, event, arg)
+        except BaseException:
+            # Whatever goes wrong in here must never be raised into the application: python raises it in the traced
+            # code, and removes the trace function for the thread.
+            logging.exception("Cannot process %s event", event)
+            return self.trace_call
+
+    def __trace_call(self, frame: FrameType, event: str, arg):
         event, file, line, function = self.location_from_event(event, frame)
         trigger_context = TriggerContext(self._config, self._push_service, frame, event, arg)
 
